@@ -101,4 +101,11 @@ func Queue.Poll
   ghost before select: assert timerlive
   loop 1 invariant t != nil
   loop 2 invariant t != nil
+
+-- the two orders of the timed priority queue: by instant (seconds, then nanoseconds - for every instant, also those
+-- outside the range an int64 of nanoseconds can express), ascending resp. descending; equal instants compare 0
+func timeAscending.CompareTo
+  ensures r0 == ((tsec(conv(time.Time, t)) < tsec(conv(time.Time, other)) || (tsec(conv(time.Time, t)) == tsec(conv(time.Time, other)) && tnsec(conv(time.Time, t)) < tnsec(conv(time.Time, other)))) ? 0 - 1 : ((tsec(conv(time.Time, t)) == tsec(conv(time.Time, other)) && tnsec(conv(time.Time, t)) == tnsec(conv(time.Time, other))) ? 0 : 1))
+func timeDescending.CompareTo
+  ensures r0 == ((tsec(conv(time.Time, t)) < tsec(conv(time.Time, other)) || (tsec(conv(time.Time, t)) == tsec(conv(time.Time, other)) && tnsec(conv(time.Time, t)) < tnsec(conv(time.Time, other)))) ? 1 : ((tsec(conv(time.Time, t)) == tsec(conv(time.Time, other)) && tnsec(conv(time.Time, t)) == tnsec(conv(time.Time, other))) ? 0 : 0 - 1))
 @*/
